@@ -29,7 +29,7 @@ type Config struct {
 
 func DefaultConfig() Config {
 	return Config{MaxSteps: 3_000_000, MaxDepth: 400, MaxDecisions: 400, MaxPaths: 20000,
-		FeasCapMs: 3000, OblCapMs: 20000, PreciseCapMs: 20000}
+		FeasCapMs: 3000, OblCapMs: 20000, PreciseCapMs: 8000}
 }
 
 type Decision struct {
@@ -122,6 +122,7 @@ type Interp struct {
 	feasCache map[string]bool
 	models    []map[string]term.Val // recent models of path conditions (counterexample cache)
 	cacheHits int
+	union     map[string]term.Val
 	varsOf    map[int][]string
 	oblCache  map[string]Obligation
 	pcModels  map[string]pcModel
@@ -370,7 +371,13 @@ func (in *Interp) feasible(c *term.Term) bool {
 		return v
 	}
 	asserts := in.withFacts(append(rel, c))
-	// counterexample cache: a recent model that satisfies everything
+	// counterexample cache: the union of recent models (latest value per
+	// variable), then individual recent models
+	if in.union != nil && in.satisfies(in.union, asserts) {
+		in.cacheHits++
+		in.feasCache[key] = true
+		return true
+	}
 	for i := len(in.models) - 1; i >= 0 && i >= len(in.models)-8; i-- {
 		if in.satisfies(in.models[i], asserts) {
 			in.cacheHits++
@@ -387,6 +394,12 @@ func (in *Interp) feasible(c *term.Term) bool {
 	in.account(r)
 	if r.Status == "sat" && r.Model != nil {
 		if m := in.valModel(r.Model, sc); m != nil {
+			if in.union == nil {
+				in.union = map[string]term.Val{}
+			}
+			for k, v := range m {
+				in.union[k] = v
+			}
 			in.models = append(in.models, m)
 			if len(in.models) > 64 {
 				in.models = in.models[32:]
@@ -475,6 +488,62 @@ func (in *Interp) feasiblePrecise(c *term.Term) bool {
 	r := in.proc("cvc5", in.cfg.FeasCapMs).Check(sc, false)
 	in.account(r)
 	return r.Status == "sat"
+}
+
+// searchWitness looks for input values under which every assert evaluates to
+// true in exact arithmetic, starting from the model m.
+func (in *Interp) searchWitness(asserts []*term.Term, sc *smt.Script, m map[string]term.Val) map[string]term.Val {
+	if in.satisfies(m, asserts) {
+		return m
+	}
+	pool := []float64{0.5, 1.5, -1.5, 2, 3, -2, 0.25, 7, 25, -25, 1, -1, 19.5, -40, 0.125, 100}
+	seed := uint64(88172645463325252) ^ uint64(len(asserts))*1099511628211
+	next := func() uint64 { seed ^= seed << 13; seed ^= seed >> 7; seed ^= seed << 17; return seed }
+	for attempt := 0; attempt < 48; attempt++ {
+		w := map[string]term.Val{}
+		for k, v := range m {
+			w[k] = v
+		}
+		for _, v := range sc.Vars {
+			if v.Sort.K != term.KFloat {
+				continue
+			}
+			r := next()
+			var x float64
+			if r&1 == 0 {
+				x = pool[(r>>8)%uint64(len(pool))]
+			} else {
+				x = float64(int64((r>>8)%6001)-3000) / 1000
+			}
+			if v.Sort.Bits == 32 {
+				x = float64(float32(x))
+			}
+			w[v.Name] = term.Val{F: x}
+		}
+		if in.satisfies(w, asserts) {
+			return w
+		}
+	}
+	return nil
+}
+
+func (in *Interp) encodeVals(w map[string]term.Val, sc *smt.Script) map[string]string {
+	out := map[string]string{}
+	for _, v := range sc.Vars {
+		val, ok := w[v.Name]
+		if !ok {
+			continue
+		}
+		switch v.Sort.K {
+		case term.KBool:
+			out[v.Name] = fmt.Sprint(val.B)
+		case term.KInt:
+			out[v.Name] = fmt.Sprint(term.UintC(v.Sort, val.I).Int())
+		default:
+			out[v.Name] = fmt.Sprintf("f:%x", math.Float64bits(val.F))
+		}
+	}
+	return out
 }
 
 func (in *Interp) satisfies(m map[string]term.Val, asserts []*term.Term) bool {
@@ -735,8 +804,40 @@ func (in *Interp) checkSlice(rel []*term.Term, neg *term.Term) Obligation {
 		}
 		return ob
 	}
-	// UF-first tier
+	// cheap refutation first: exact evaluation (IEEE arithmetic, Go's libm) of
+	// recent solver models of this path and of perturbations of their float
+	// inputs. A point that satisfies the path slice and falsifies the assertion
+	// is a bit-precise counterexample; it only short-cuts a "sat" verdict, the
+	// "holds" verdicts below always come from the solver.
 	scU := smt.Build(in.feasMode(), asserts)
+	if !term.HasUFOtherThanMath(asserts...) {
+		seedM := map[string]term.Val{}
+		for i := len(in.models) - 1; i >= 0 && i >= len(in.models)-4; i-- {
+			for k, v := range in.models[i] {
+				if _, ok := seedM[k]; !ok {
+					seedM[k] = v
+				}
+			}
+		}
+		complete := true
+		for _, v := range scU.Vars {
+			if _, ok := seedM[v.Name]; !ok {
+				if v.Sort.K == term.KFloat {
+					seedM[v.Name] = term.Val{F: 1.5}
+				} else {
+					complete = false
+				}
+			}
+		}
+		if complete {
+			if w := in.searchWitness(asserts, scU, seedM); w != nil {
+				ob.Status, ob.Tier = "candidate", "fp-eval"
+				ob.Model = in.encodeVals(w, scU)
+				return ob
+			}
+		}
+	}
+	// UF-first tier
 	rU := in.proc("cvc5", oblCap).Check(scU, true)
 	in.account(rU)
 	ob.Tier, ob.Solver = "fpuf", rU.Solver
@@ -746,6 +847,18 @@ func (in *Interp) checkSlice(rel []*term.Term, neg *term.Term) Obligation {
 	if rU.Status == "unsat" {
 		ob.Status = "discharged"
 		return ob
+	}
+	// exact evaluation of the UF-tier model (and of perturbations of its float
+	// inputs) with IEEE arithmetic and Go's libm: a point that satisfies the
+	// path slice and falsifies the assertion is a bit-precise counterexample
+	if rU.Status == "sat" {
+		if m := in.valModel(rU.Model, scU); m != nil {
+			if w := in.searchWitness(asserts, scU, m); w != nil {
+				ob.Status, ob.Tier = "candidate", "fp-eval"
+				ob.Model = in.encodeVals(w, scU)
+				return ob
+			}
+		}
 	}
 	// bit-precise tier
 	scP := smt.Build(in.preciseMode(), asserts)
@@ -939,6 +1052,7 @@ func (in *Interp) RunJob(job Job) *JobRes {
 	in.pcModels = map[string]pcModel{}
 	in.oblHits = 0
 	in.models = nil
+	in.union = nil
 	in.cacheHits = 0
 	in.work = [][]Decision{{}}
 	in.forks = 0
